@@ -789,6 +789,9 @@ func ruleR9_4(w *World, r *Report) {
 			default:
 				cls = "unbound"
 			}
+			if c := w.statusClass(f); c != "" {
+				cls = c // also `!= Indet, != Sat` (two tests instead of a switch) pins the status
+			}
 			da := lfAdd(lfOf(phiIncoming(A, from, st), 0), lfOf(A, 0), -1)
 			db := lfAdd(lfOf(phiIncoming(B, from, st), 0), lfOf(B, 0), -1)
 			got[cls][delta{da.String(), db.String()}] = true
@@ -867,6 +870,38 @@ func ruleR9_5(w *World, r *Report) {
 				}
 			}
 		}
+		bindFn := fn // the function holding the binding call (fn itself, or a helper handed one element per iteration)
+		if len(binders) == 0 {
+			for _, ci := range callsIn(fn) {
+				hc, ok := ci.(*ssa.Call)
+				h := ci.Common().StaticCallee()
+				if !ok || h == nil || w.PkgName(h) != "solver" || len(h.Blocks) == 0 || !inLoop(fn, hc.Block()) {
+					continue
+				}
+				for ai, a := range hc.Call.Args {
+					ld, isLd := a.(*ssa.UnOp)
+					if !isLd || ld.Op != token.MUL || ai >= len(h.Params) {
+						continue
+					}
+					ia, isIA := ld.X.(*ssa.IndexAddr)
+					if !isIA || ia.X != ssa.Value(units) {
+						continue
+					}
+					// the helper binds the parameter at level 1
+					for _, cj := range callsIn(h) {
+						c2, ok2 := cj.(*ssa.Call)
+						if !ok2 || typeShort(c2.Type()) != "*solver.Clause" || len(c2.Call.Args) < 2 {
+							continue
+						}
+						lvl, okL := constInt(c2.Call.Args[len(c2.Call.Args)-1])
+						if okL && lvl == 1 && c2.Call.Args[len(c2.Call.Args)-2] == ssa.Value(h.Params[ai]) {
+							binders = append(binders, hc)
+							bindFn = h
+						}
+					}
+				}
+			}
+		}
 		if len(binders) == 0 {
 			continue
 		}
@@ -884,6 +919,36 @@ func ruleR9_5(w *World, r *Report) {
 			continue
 		}
 		lit := b0.Call.Args[len(b0.Call.Args)-2]
+		if bindFn != fn {
+			// the helper's own order: retraction to level 1 before any write of the model
+			okOrder := false
+			if cl := levelCleaner(w); cl != nil {
+				var clean ssa.CallInstruction
+				for _, cj := range callsIn(bindFn) {
+					if w.staticCalleeIs(cj, cl) {
+						if v, ok := constInt(cj.Common().Args[len(cj.Common().Args)-1]); ok && v == 1 {
+							clean = cj
+						}
+					}
+				}
+				okOrder = clean != nil
+				if clean != nil {
+					allInstrs(bindFn, func(ins ssa.Instruction) {
+						if st, ok := ins.(*ssa.Store); ok {
+							if ia, ok := st.Addr.(*ssa.IndexAddr); ok {
+								if _, ok := isFieldLoad(ia.X, "solver.Solver", "model"); ok && !instrDominates(clean, st) {
+									okOrder = false
+								}
+							}
+						}
+					})
+				}
+			}
+			r.Check(okOrder, "R9.5", w.FuncName(fn)+" retracts before binding", w.InstrPos(b0), "the retraction to level 1 dominates every write of the model in the helper "+w.FuncName(bindFn),
+				"a unit is written into the model before the bindings above level 1 are retracted: the retraction then leaves the old decision of that variable on the trail next to the new fact, and a later top-level conflict is not recognised")
+			r.OK("R9.5", key, w.InstrPos(b0), "every element of the list is handed to "+w.FuncName(bindFn)+", which binds it")
+			continue
+		}
 		// ordering: everything above level 1 is retracted before this unit is written into the model
 		if cl := levelCleaner(w); cl != nil {
 			var clean ssa.CallInstruction
